@@ -86,7 +86,7 @@ func (o *obs) finish(so *stepObs, l0, t0 int) {
 func cutOf(p *promref.Program, i int) int { return (len(p.Segs[i]) + 1) / 2 }
 
 // execute runs the program under a schedule and an entry variant on a fresh runtime.
-func execute(p *promref.Program, sched []promref.Step, cfg runCfg) *obs {
+func execute(p *promref.Program, sched []promref.Step, cfg runCfg, pc progCache) *obs {
 	o := &obs{Stopped: -1}
 	h, why := newHost(p, cfg.ProbeAt)
 	if h == nil {
@@ -108,7 +108,12 @@ func execute(p *promref.Program, sched []promref.Step, cfg runCfg) *obs {
 			}
 		}
 		var so stepObs
-		if !o.call(&so, func() (goja.Value, error) { return r.RunString(src) }) {
+		defs, err := pc.get("defs.js", src)
+		if err != nil {
+			o.Broken, o.BrokenMon = "compile: "+err.Error(), "harness"
+			return o
+		}
+		if !o.call(&so, func() (goja.Value, error) { return r.RunProgram(defs) }) {
 			return o
 		}
 		if so.Err != "" || evString(so.Events) != "i0" {
@@ -145,7 +150,7 @@ func execute(p *promref.Program, sched []promref.Step, cfg runCfg) *obs {
 			ok = o.call(&so, func() (goja.Value, error) { return r.RunString(src) })
 		case cfg.Entry == EntryRunProgram:
 			src := promref.PrintSegment(p, s.Run, opts)
-			prg, err := goja.Compile(fmt.Sprintf("seg%d.js", s.Run), src, false)
+			prg, err := pc.get(fmt.Sprintf("seg%d.js", s.Run), src)
 			if err != nil {
 				o.Broken, o.BrokenMon = "compile: "+err.Error(), "harness"
 				return o
